@@ -2,6 +2,7 @@
 CONSTANTS
   UnsupportedRule = "pass"
   HeadRule = "pass"
+  StatusRule = "pass"
   CtRule = "casesensitive"
   ParseRule = "scripting"
   CspRule = "policylist"
